@@ -143,7 +143,7 @@ PROPS = {
         "assumptions": ["limit >= 1", "sequential use (concurrency is C18)"],
     },
     "C05": {
-        "lean_modules": ["Cachelito.Props.C05", "Cachelito.Props.C05a", "Cachelito.Props.T01", "Cachelito.Props.T14", "Cachelito.Props.T15", "Cachelito.Props.T16", "Cachelito.Props.T17m"],
+        "lean_modules": ["Cachelito.Props.C05", "Cachelito.Props.C05a", "Cachelito.Props.T01", "Cachelito.Props.T14", "Cachelito.Props.T15", "Cachelito.Props.T16", "Cachelito.Props.T17m", "Cachelito.Props.S01"],
         "streams": [core_stream(filters=[[], ["shape=crowd"]], quick=1600, thorough=30000, nontrivial=["memory-store"], what="L1 restricted to nothing: all flavours/policies, memory-aware stores with sizes around max_memory; half of the episodes in the 'crowd' shape (a bound that holds five to eight small residents, large newcomers that displace several of them in one store)"),
                     lines_stream("mem_diff", "mem", ["{seed}", "{n}"], 60, 600,
                                  "estimator: random values of 85 Rust types (String/Vec with chosen capacities, nested Option/Result/tuple/Box/Arc/Rc, CacheEntry) through the REAL estimate_memory() vs MemEst.estimate; independent footprint walk", r"\|"),
